@@ -175,6 +175,10 @@ impl System for NbSys {
                     let n = 6 + rx1.is_some() as usize + rx2.is_some() as usize;
                     for k in 0..n {
                         v.push(Ev::CycleF { confirmed: conf, port: 1, len, rx1: rx1.clone(), rx2: rx2.clone(), fault_at: k });
+                        // a radio outage that spans two / three consecutive radio calls (one deviation)
+                        for burst in [2usize, 3] {
+                            v.push(Ev::CycleFB { confirmed: conf, port: 1, len, rx1: rx1.clone(), rx2: rx2.clone(), fault_at: k, burst });
+                        }
                     }
                 }
             }
@@ -184,7 +188,7 @@ impl System for NbSys {
 
     fn step(&mut self, ev: &Ev) -> Vec<V> {
         let mut out = vec![];
-        if matches!(ev, Ev::CycleF { .. }) {
+        if matches!(ev, Ev::CycleF { .. } | Ev::CycleFB { .. }) {
             self.faults += 1;
         }
         let micros = self.core.apply(ev);
@@ -283,6 +287,10 @@ impl System for ASys {
                     // at most 12 radio calls in one send (tx, rxc setup, receptions, windows, ...)
                     for k in 0..12 {
                         v.push(AEv::Send { confirmed: conf, port: 1, len, script: Script { fault_at: Some(k), ..s.clone() } });
+                        // a radio outage that spans two consecutive radio calls / the rest of the call (one deviation)
+                        for burst in [2usize, 64] {
+                            v.push(AEv::Send { confirmed: conf, port: 1, len, script: Script { fault_at: Some(k), fault_burst: burst, ..s.clone() } });
+                        }
                     }
                 }
             }
@@ -445,7 +453,7 @@ pub fn run(tier: Tier, replay: Option<&str>) {
         ],
         "evaluations": ctx.evals(),
         "distinct_nontrivial": states,
-        "rule": "BFS over histories of whole uplink transactions (and Class C idle listening) on the real nb and async devices; every transaction is run with every receive outcome of the alphabet (nothing, RX1 hit, RX2 hit confirmed, invalid frame, MAC-only downlink on port 0 / in FOpts, Class C downlink before RX1 / RX2) and with a radio fault at every radio call position of the transaction, at most `fault_bound` faults per history; sessions start with fcnt_up at 0, 0xFFFE, 0xFFFF, 2^32-3, 2^32-2, 2^32-1, and (fault-free, depth 3) one uplink before each ADR back-off threshold (63, 95, 127 uplinks without a downlink) at the lowest and at a higher data rate; every frame handed to the radio is decoded by the reference codec (counter recovered by MIC verification)",
+        "rule": "BFS over histories of whole uplink transactions (and Class C idle listening) on the real nb and async devices; every transaction is run with every receive outcome of the alphabet (nothing, RX1 hit, RX2 hit confirmed, invalid frame, MAC-only downlink on port 0 / in FOpts, Class C downlink before RX1 / RX2) and with a radio fault at every radio call position of the transaction - a single failing call, or an outage spanning 2 / 3 consecutive radio calls (nb: the retried step fails again) or 2 calls / the rest of the public call (async) -, at most `fault_bound` such deviations per history; sessions start with fcnt_up at 0, 0xFFFE, 0xFFFF, 2^32-3, 2^32-2, 2^32-1, and (fault-free, depth 3) one uplink before each ADR back-off threshold (63, 95, 127 uplinks without a downlink) at the lowest and at a higher data rate; every frame handed to the radio is decoded by the reference codec (counter recovered by MIC verification)",
         "fault_bound_completed": bound,
         "depth": depth,
         "configurations": runs.len(),
